@@ -1,7 +1,8 @@
 """C19  A grid shares no mutable state with its inputs, copies or exports.
 
 Decided (F-ALIAS): writes that reach caller-owned buffers/containers from the public constructors,
-internal objects handed to another owner, cached/internal objects returned without a copy."""
+internal objects handed to another owner, cached/internal objects returned without a copy.
+Exported datasets own their buffers; the ownership analysis follows calls six levels deep (readers' in-place helpers)."""
 
 import ast
 
